@@ -553,6 +553,31 @@ fn generate_blocked_targets(thorough: bool, out: &mut dyn Write) {
         format!("FA:64:0:sqpack/ffxiv:{}", zblock(900, 4)),
         "FA:0:0:d0/d1:r~15984.7;r~1.8".into(),
     ];
+    // the same for commands that name a node of the wrong kind: DeleteFile on a directory / through
+    // a regular file (the reference warns and goes on), AddFile below a regular file (an error)
+    let wrong_kind: Vec<String> = vec![
+        "FD:0:d0".into(),
+        "FD:0:d0/d1".into(),
+        "FD:0:sqpack/ffxiv".into(),
+        "FD:0:f0/x".into(),
+        "FD:0:ffxivboot.ver/a/b".into(),
+        "FA:0:0:f0/x:r~10.1".into(),
+        "FA:16:0:ffxivboot.ver/a/b:r~10.1".into(),
+    ];
+    for (i, w) in wrong_kind.iter().enumerate() {
+        let api = ["zipatch", "boot", "game"][i % 3];
+        writeln!(out, "apply api={} tree={} cmds=T:0:65535:0:1:0:0,{},FA:0:0:f1.bin:r~50.7,FD:0:f0", api, tree, w).unwrap();
+        writeln!(out, "apply api={} tree={} cmds=T:0:65535:0:1:0:0,FM:0:d2/d3,FA:0:0:d2/d3:r~9.2,{},FD:0:d2/d3,E:4:256:1:2:2", api, tree, w).unwrap();
+    }
+    // raw blocks on either side of 1 MiB and beyond (a raw block is as long as its file says: only a
+    // deflated block has the 1 MiB guard), alone, followed by another block, and at an offset
+    for (i, n) in [1048575usize, 1048576, 1048577, 1500000, 2097153].iter().enumerate() {
+        if !thorough && i % 2 == 1 {
+            continue;
+        }
+        writeln!(out, "apply api=zipatch tree={} cmds=T:0:65535:0:1:0:0,FA:0:0:big.bin:r~{}.5,FD:0:f0", tree, n).unwrap();
+        writeln!(out, "apply api=game tree={} cmds=T:0:65535:0:1:0:0,FA:128:0:f0:r~{}.6;r~10.7,FA:0:0:f1.bin:r~50.7", tree, n).unwrap();
+    }
     let follow: Vec<String> = vec![
         "FA:0:0:f1.bin:r~50.7".into(),
         format!("FA:8:0:f0:{};r~3.9", zblock(120, 10)),
